@@ -18,6 +18,7 @@ import (
 	"math/rand"
 	"os"
 	"path/filepath"
+	"strconv"
 	"strings"
 	"testing"
 	"time"
@@ -28,13 +29,15 @@ import (
 )
 
 type c12Event struct {
-	Ev    string `json:"ev"`             // data | sidecar | badsidecar | open | reap | restart
+	Ev    string `json:"ev"`             // data | sidecar | rec | badsidecar | open | reap | restart
 	File  int    `json:"file,omitempty"` // index into the store's data files (catalog order)
 	Kind  string `json:"kind,omitempty"` // data: flip-page | flip-random | flip-last | cut1 | cut-page
 	Off   int64  `json:"off,omitempty"`
 	Snap  int    `json:"snap,omitempty"` // open: which listed snapshot, 0 = newest
 	Recv  string `json:"recv,omitempty"` // open: transfer | restore
 	Digit int    `json:"digit,omitempty"`
+	Pos   int    `json:"pos,omitempty"`  // rec: byte position in the checksum record
+	Mask  int    `json:"mask,omitempty"` // rec: bits flipped there
 }
 
 type c12Input struct {
@@ -143,8 +146,9 @@ type c12World struct {
 	scratch  string
 	dir      string
 	store    *Store
-	paths    []string // data files in catalog order: this is the model's file list
-	pristine [][]byte // what each of them held when it was written
+	paths    []string     // data files in catalog order: this is the model's file list
+	pristine [][]byte     // what each of them held when it was written
+	badRec   map[int]bool // files whose checksum record is not a usable record (reference reading)
 }
 
 func (w *c12World) open() {
@@ -158,7 +162,10 @@ func (w *c12World) open() {
 // index builds the file list from the catalog (white-box Scan, which does not read file contents)
 func (w *c12World) index() {
 	set, err := w.store.getSnapshots()
-	c12Must(err)
+	if err != nil {
+		return // the catalog cannot be scanned (an unusable checksum record): keep the last index
+	}
+	w.badRec = map[int]bool{}
 	w.paths, w.pristine = nil, nil
 	for _, sn := range set.All() {
 		if sn.dbFile != nil {
@@ -214,6 +221,61 @@ func c12NatList(xs []int) string {
 		it[i] = coqNat(x)
 	}
 	return coqList(it)
+}
+
+// c12RefRecord reads a checksum record the way the format is documented: a JSON object with a
+// checksum type this release knows ("castagnoli") and an 8-digit hexadecimal value.  Anything else
+// is not a usable record.  (Written here independently of the sidecar package.)
+func c12RefRecord(b []byte) (class string, crc uint32) {
+	var r struct {
+		CRC      string `json:"crc"`
+		Type     string `json:"type"`
+		Disabled bool   `json:"disabled"`
+	}
+	if err := json.Unmarshal(b, &r); err != nil {
+		return "unknown", 0
+	}
+	if r.Disabled {
+		return "disabled", 0
+	}
+	if r.Type != "castagnoli" || len(r.CRC) != 8 {
+		return "unknown", 0
+	}
+	v, err := strconv.ParseUint(r.CRC, 16, 32)
+	if err != nil {
+		return "unknown", 0
+	}
+	return "crc", uint32(v)
+}
+
+func c12MutateRecord(b []byte, e c12Event) []byte {
+	out := append([]byte{}, b...)
+	switch e.Kind {
+	case "flip":
+		if len(out) > 0 {
+			out[e.Pos%len(out)] ^= byte(e.Mask)
+		}
+	case "trunc":
+		out = out[:e.Pos%len(out)]
+	case "append":
+		out = append(out, []byte("garbage")...)
+	case "badjson":
+		out = []byte("{not json")
+	case "empty":
+		out = nil
+	case "swap": // the same record with its fields in the other order
+		cls, v := c12RefRecord(b)
+		if cls == "crc" {
+			out = []byte(fmt.Sprintf(`{"type":"castagnoli","crc":"%08x"}`, v))
+		}
+	case "notype":
+		_, v := c12RefRecord(b)
+		out = []byte(fmt.Sprintf(`{"crc":"%08x"}`, v))
+	case "newtype":
+		_, v := c12RefRecord(b)
+		out = []byte(fmt.Sprintf(`{"crc":"%08x","type":"crc64-nvme"}`, v))
+	}
+	return out
 }
 
 // leftover: a reap plan (or its temporary) or a temporary directory is in the store directory
@@ -300,14 +362,37 @@ func (w *c12World) run(evs []c12Event) (coqEv []string, obs []string, fail, sig 
 				continue
 			}
 			p := w.paths[e.File] + crcSuffix
-			sc, err := sidecar.ReadFile(p)
+			rb, err := os.ReadFile(p)
 			c12Must(err)
-			v, err := sc.CRC32()
-			c12Must(err)
+			cls, v := c12RefRecord(rb)
+			if cls != "crc" {
+				continue // the record is already unusable
+			}
 			v ^= 1 << uint(e.Digit%32)
 			c12Must(sidecar.WriteFile(p, v))
 			touched[e.File] = true
 			emit(fmt.Sprintf("ECorruptSidecar %s %s", coqNat(e.File), coqN(uint64(v))), 0)
+		case "rec":
+			if e.File >= len(w.paths) {
+				continue
+			}
+			p := w.paths[e.File] + crcSuffix
+			b, err := os.ReadFile(p)
+			c12Must(err)
+			nb := c12MutateRecord(b, e)
+			cls, v := c12RefRecord(nb)
+			if cls == "disabled" {
+				continue // a Disabled mark switches checking off by design; not generated
+			}
+			c12Must(os.WriteFile(p, nb, 0644))
+			touched[e.File] = true
+			if cls == "unknown" {
+				w.badRec[e.File] = true
+				emit(fmt.Sprintf("ECorruptRecord %s", coqNat(e.File)), 0)
+			} else {
+				delete(w.badRec, e.File)
+				emit(fmt.Sprintf("ECorruptSidecar %s %s", coqNat(e.File), coqN(uint64(v))), 0)
+			}
 		case "open":
 			metas, lerr := w.store.ListAll()
 			var ids []int
@@ -321,12 +406,18 @@ func (w *c12World) run(evs []c12Event) (coqEv []string, obs []string, fail, sig 
 					nontrivial = true
 				}
 			}
+			if len(w.badRec) > 0 {
+				nontrivial = true
+			}
 			ok, delivered := w.consumeOpen(id, e.Recv)
 			if !ok {
 				emit("EOpen "+c12NatList(ids), 2)
 				break
 			}
 			emit("EOpen "+c12NatList(ids), 1)
+			if len(w.badRec) > 0 {
+				note(what+": a snapshot was opened and delivered although a checksum record of the store is not a usable record (no or unknown checksum type, malformed); its data file counts as not checksummed", "C12:unusable-checksum-record-accepted")
+			}
 			// ---- property: what was installed / restored is the data as written
 			var want [][]byte
 			for _, i := range ids {
@@ -350,7 +441,18 @@ func (w *c12World) run(evs []c12Event) (coqEv []string, obs []string, fail, sig 
 			}
 		case "reap":
 			set, err := w.store.getSnapshots()
-			if err != nil || set.Len() == 0 {
+			if err != nil {
+				// the catalog cannot be scanned: the reap must refuse too
+				_, c, rerr := w.store.Reap()
+				if rerr == nil && c > 0 {
+					emit("EReap [] [] 0%N", 1)
+					note(what+": a reap consolidated although the catalog cannot be scanned", "C12:unusable-checksum-record-accepted")
+				} else {
+					emit("EReap [] [] 0%N", 2)
+				}
+				break
+			}
+			if set.Len() == 0 {
 				continue
 			}
 			newest, _ := set.Newest()
@@ -378,6 +480,7 @@ func (w *c12World) run(evs []c12Event) (coqEv []string, obs []string, fail, sig 
 				want = append(want, w.pristine[i])
 			}
 			dirty := w.dirty(ids)
+			badBefore := w.badRec
 			time.Sleep(2 * time.Millisecond)
 			_, c, rerr := w.store.Reap()
 			if rerr != nil || c == 0 {
@@ -395,6 +498,9 @@ func (w *c12World) run(evs []c12Event) (coqEv []string, obs []string, fail, sig 
 				v = uint64(crc32.Checksum(w.pristine[0], c12Cast))
 			}
 			emit(fmt.Sprintf("EReap %s %s %s", c12NatList(ids), c12NatList(gone), coqN(v)), 1)
+			if len(badBefore) > 0 {
+				note(what+": a reap consolidated although a checksum record of the store is not a usable record", "C12:unusable-checksum-record-accepted")
+			}
 			if dirty {
 				note(what+": the reap consolidated a data file that no longer matched its recorded checksum and wrote a fresh checksum for the result", "C12:late-corruption-laundered-by-reap")
 			} else if len(w.pristine) != 1 || !bytes.Equal(w.pristine[0], exp) {
@@ -413,6 +519,7 @@ func (w *c12World) run(evs []c12Event) (coqEv []string, obs []string, fail, sig 
 			// a restart is not a consumer: it must not rewrite snapshot data
 			old := w.paths
 			oldPristine := w.pristine
+			oldBad := w.badRec
 			w.index()
 			if strings.Join(w.paths, "|") != before {
 				if dirty {
@@ -422,7 +529,7 @@ func (w *c12World) run(evs []c12Event) (coqEv []string, obs []string, fail, sig 
 				}
 				touched = map[int]bool{}
 			} else {
-				w.paths, w.pristine = old, oldPristine
+				w.paths, w.pristine, w.badRec = old, oldPristine, oldBad
 			}
 		}
 	}
@@ -485,7 +592,7 @@ func c12Run(w *vWriter, scratch string, templates map[string]string, in c12Input
 	c12Must(err)
 	defer os.RemoveAll(dir)
 	c12CopyDir(templates[in.Shape], dir)
-	world := &c12World{scratch: scratch, dir: dir}
+	world := &c12World{scratch: scratch, dir: dir, badRec: map[int]bool{}}
 	world.open()
 	defer func() { world.store.Close() }()
 	world.index()
@@ -516,7 +623,7 @@ func c12RunBadSidecar(w *vWriter, scratch string, templates map[string]string, s
 	c12Must(err)
 	defer os.RemoveAll(dir)
 	c12CopyDir(templates[shape], dir)
-	world := &c12World{scratch: scratch, dir: dir}
+	world := &c12World{scratch: scratch, dir: dir, badRec: map[int]bool{}}
 	world.open()
 	world.index()
 	p := world.paths[file%len(world.paths)] + crcSuffix
@@ -614,7 +721,9 @@ func TestVerif_C12(t *testing.T) {
 				for ci, c := range consumers {
 					// corruption present before the store's first use of its data
 					evs := append([]c12Event{c12Corruption(rng, f, kind)}, c...)
-					c12Run(w, scratch, templates, c12Input{Shape: shape, Events: evs})
+					if vTier() == "thorough" || (f+kind+ci)%2 == 0 {
+						c12Run(w, scratch, templates, c12Input{Shape: shape, Events: evs})
+					}
 					// corruption after the first (successful) use, then the consumer, then what follows it
 					evs = append([]c12Event{}, firstUse[(f+kind+ci)%2]...)
 					evs = append(evs, c12Corruption(rng, f, kind))
@@ -624,6 +733,58 @@ func TestVerif_C12(t *testing.T) {
 					evs = append(evs, tails[(f*7+kind*3+ci)%len(tails)]...)
 					c12Run(w, scratch, templates, c12Input{Shape: shape, Events: evs})
 				}
+			}
+		}
+	}
+	// checksum-record corruptions: every byte position x bit masks, and structural damage; alone and
+	// together with a corruption of the data file the record covers; present before the store's
+	// first use of its data or arising after it; followed by every kind of consumer
+	recLen := len(`{"crc":"1a2b3c4d","type":"castagnoli"}`)
+	masks := []int{0x01, 0x20}
+	if vTier() == "thorough" {
+		masks = []int{0x01, 0x02, 0x04, 0x10, 0x20, 0x80}
+	}
+	recTail := func(k int) []c12Event {
+		r := []string{"restore", "transfer"}
+		return []c12Event{{Ev: "open", Recv: r[k%2]}, {Ev: "reap"}, {Ev: "restart"}, {Ev: "open", Recv: r[(k+1)%2]}, {Ev: "reap"}}
+	}
+	recCase := func(shape string, f, variant, k int, rec c12Event) {
+		var evs []c12Event
+		if variant >= 2 {
+			evs = append(evs, firstUse[k%2]...)
+		}
+		rec.Ev, rec.File = "rec", f
+		evs = append(evs, rec)
+		if variant%2 == 1 {
+			evs = append(evs, c12Corruption(rng, f, 1+k%4))
+		}
+		evs = append(evs, recTail(k)...)
+		c12Run(w, scratch, templates, c12Input{Shape: shape, Events: evs})
+	}
+	for si, shape := range shapes {
+		files := []int{}
+		for f := 0; f < nfiles[shape]; f++ {
+			files = append(files, f)
+		}
+		for pos := 0; pos < recLen; pos++ {
+			for mi, m := range masks {
+				if vTier() == "thorough" {
+					for _, f := range files {
+						for variant := 0; variant < 4; variant++ {
+							recCase(shape, f, variant, pos+mi, c12Event{Kind: "flip", Pos: pos, Mask: m})
+						}
+					}
+					continue
+				}
+				recCase(shape, (pos+si)%nfiles[shape], (pos+mi+si)%4, pos+mi, c12Event{Kind: "flip", Pos: pos, Mask: m})
+			}
+		}
+		for ki, kind := range []string{"trunc", "trunc", "append", "badjson", "empty", "swap", "notype", "newtype"} {
+			for variant := 0; variant < 4; variant++ {
+				if vTier() != "thorough" && variant%2 != ki%2 {
+					continue
+				}
+				recCase(shape, (ki+variant)%nfiles[shape], variant, ki, c12Event{Kind: kind, Pos: 1 + ki*17})
 			}
 		}
 	}
@@ -637,6 +798,8 @@ func TestVerif_C12(t *testing.T) {
 		}
 		for k, l := 0, 3+rng.Intn(6); k < l; k++ {
 			switch r := rng.Intn(12); {
+			case r < 1:
+				evs = append(evs, c12Event{Ev: "rec", File: rng.Intn(nfiles[shape]), Kind: "flip", Pos: rng.Intn(38), Mask: 1 << uint(rng.Intn(8))})
 			case r < 3:
 				evs = append(evs, c12Corruption(rng, rng.Intn(nfiles[shape]), rng.Intn(6)))
 			case r < 6:
